@@ -239,6 +239,22 @@ pub fn apply(op: &Op, sc: &Scenario, req: &[u8], prev_honest: &[u8]) -> Vec<u8> 
                     p.dele.set("MAXT", le64(sc.stamp.midp.saturating_sub(10)));
                     p.sign_dele(v, &id.lt_seed);
                 }
+                // empty windows (MINT > MAXT) lying wholly below / wholly above the midpoint
+                "window-inverted-below" => {
+                    p.dele.set("MINT", le64(sc.stamp.midp.saturating_sub(5)));
+                    p.dele.set("MAXT", le64(sc.stamp.midp.saturating_sub(10)));
+                    p.sign_dele(v, &id.lt_seed);
+                }
+                "window-inverted-above" => {
+                    p.dele.set("MINT", le64(sc.stamp.midp + 10));
+                    p.dele.set("MAXT", le64(sc.stamp.midp + 5));
+                    p.sign_dele(v, &id.lt_seed);
+                }
+                "window-inverted-extremes" => {
+                    p.dele.set("MINT", le64(u64::MAX));
+                    p.dele.set("MAXT", le64(0));
+                    p.sign_dele(v, &id.lt_seed);
+                }
                 // invented SREP (other midpoint, correct root) carrying the genuine CERT.SIG as its SIG
                 "forged-srep-with-certsig" => {
                     p.srep.set("MIDP", le64(1_000_000_000));
@@ -437,7 +453,7 @@ pub fn alphabet(v: Version, honest_len: usize, tier: Tier) -> Vec<Op> {
             ops.push(Op::Shadow(f, c));
         }
     }
-    for r in ["all-by-s2", "srep-by-s2-online", "dele-by-s2", "window-before", "window-after", "window-empty", "root-of-other-batch", "root-empty", "root-prefix-4", "root-half", "root-extended", "forged-srep-with-certsig", "forged-dele-keeping-certsig"] {
+    for r in ["all-by-s2", "srep-by-s2-online", "dele-by-s2", "window-before", "window-after", "window-empty", "window-inverted-below", "window-inverted-above", "window-inverted-extremes", "root-of-other-batch", "root-empty", "root-prefix-4", "root-half", "root-extended", "forged-srep-with-certsig", "forged-dele-keeping-certsig"] {
         ops.push(Op::Resign(r));
     }
     for c in ["dele-ctx", "tree-profile", "whole-reply", "framing"] {
